@@ -306,6 +306,14 @@ class Convention(abc.ABC, Generic[GridKind, Index]):
                 if 'since' in units:
                     # The variable must now be a numpy datetime
                     if variable.dtype.type == numpy.datetime64:
+                        try:
+                            # A variable defined on a grid is data with time units,
+                            # such as the time of an observation in each cell,
+                            # not the time coordinate.
+                            self.get_grid_kind(variable)
+                            continue
+                        except ValueError:
+                            pass
                         return variable
         raise NoSuchCoordinateError("Could not find time coordinate in dataset")
 
